@@ -3,6 +3,7 @@ package an
 import (
 	"go/ast"
 	"go/types"
+	"regexp"
 	"sort"
 	"strings"
 )
@@ -172,6 +173,16 @@ func (ls *LockState) HeldAt(s Site, key string) int {
 	in := ls.In[s.V]
 	if in == nil {
 		return LockW // unreachable code holds everything
+	}
+	if strings.HasPrefix(key, "re:") {
+		rx := regexp.MustCompile(key[3:])
+		best := LockNone
+		for k, m := range in {
+			if rx.MatchString(k) && m > best {
+				best = m
+			}
+		}
+		return best
 	}
 	return in[key]
 }
